@@ -2,7 +2,7 @@
 # ./tools/sweep.sh <tier> <seeds...>   - runs every check for each seed, prints one status line per run
 tier=$1; shift
 for s in "$@"; do
-  for i in 01 02 03 04 05 06 07 08 09 10 11 12 13 14 15 16 17 18 19 20; do
+  for i in ${SWEEP_IDS:-01 02 03 04 05 06 07 08 09 10 11 12 13 14 15 16 17 18 19 20}; do
     t0=$(date +%s)
     out=$(VERIF_SEED=$s VERIF_NO_EVIDENCE=1 ./vcheck C$i $tier 2>&1); rc=$?
     t1=$(date +%s)
